@@ -698,6 +698,13 @@ type zzC04State struct {
 	Ap [][]int   `json:"ap"`
 	Lo [][][]int `json:"lo"`
 	Fx []int     `json:"fx"`
+
+	// Cells where the zone-less identifier decides for a zoned address
+	// (ClientsCore!ZoneFallback): 0, or 1 + the answer without that rule.
+	// They are compared by altLookups ("zonefall"), not by zzC04Compare.
+	Zi []int   `json:"zi"`
+	Za []int   `json:"za"`
+	Zp [][]int `json:"zp"`
 }
 
 type zzC04Chunk struct {
@@ -1102,7 +1109,7 @@ func (rn *zzC04Runner) altLookups(c *zzC04Chunk, state int, o *zzC04Obs, want *z
 		switch alt {
 		case "nettext", "mappednet":
 			asFinding = got == 0 && w > 0
-		case "cidcase":
+		case "cidcase", "zonefall":
 			asFinding = got == absent
 		case "mapped":
 			asFinding = got == 0
@@ -1138,6 +1145,22 @@ func (rn *zzC04Runner) altLookups(c *zzC04Chunk, state int, o *zzC04Obs, want *z
 		}
 
 		return rn.effCode(e, &zzC04Obs{})
+	}
+	// zonefall: the cells the canonical comparison left out
+	for i := range rn.uni.IDs {
+		if want.Zi[i] != 0 {
+			report("zonefall", fmt.Sprintf("Find(id %d = %s)", i+1, rn.idStr[i]), o.Fi[i], want.Fi[i][0], want.Zi[i]-1)
+		}
+	}
+	for j, a := range rn.uni.Addrs {
+		if want.Za[j] != 0 {
+			report("zonefall", fmt.Sprintf("Find(addr #%d = %s)", j+1, rn.conc.addr(a)), o.Fa[j], want.Fa[j], want.Za[j]-1)
+		}
+		for r := range rn.uni.CIDs {
+			if want.Zp[r][j] != 0 {
+				report("zonefall", fmt.Sprintf("Apply(cid #%d, addr #%d = %s)", r+1, j+1, rn.conc.addr(a)), o.Ap[r][j], want.Ap[r][j], want.Zp[r][j]-1)
+			}
+		}
 	}
 	for i, id := range rn.uni.IDs {
 		switch id.K {
@@ -1286,8 +1309,8 @@ func zzC04Compare(uni *zzC04Uni, o *zzC04Obs, want *zzC04State) (diff string) {
 		return false
 	}
 	for i := range o.Fi {
-		if uni.IDs[i].K == "net" {
-			// lookup by the text of a prefix: compared by altLookups
+		if uni.IDs[i].K == "net" || want.Zi[i] != 0 {
+			// lookup by the text of a prefix / zone-less fallback: compared by altLookups
 			continue
 		}
 		if !in(o.Fi[i], want.Fi[i]) {
@@ -1295,12 +1318,18 @@ func zzC04Compare(uni *zzC04Uni, o *zzC04Obs, want *zzC04State) (diff string) {
 		}
 	}
 	for i := range o.Fa {
+		if want.Za[i] != 0 {
+			continue
+		}
 		if o.Fa[i] != want.Fa[i] {
 			return fmt.Sprintf("Find(addr #%d): got client %d, spec %d", i+1, o.Fa[i], want.Fa[i])
 		}
 	}
 	for i := range o.Ap {
 		for j := range o.Ap[i] {
+			if want.Zp[i][j] != 0 {
+				continue
+			}
 			if o.Ap[i][j] != want.Ap[i][j] {
 				return fmt.Sprintf("Apply(cid #%d, addr #%d): got %d, spec %d (4*who+2*ownvals+ownsvcs)", i+1, j+1, o.Ap[i][j], want.Ap[i][j])
 			}
@@ -1812,6 +1841,8 @@ func zzC04OneTrace(tb testing.TB, w *zzWriter, tr, nOps int, seed int64, dir str
 						q.Alt, q.Conc = "cidcase", strings.ToUpper(q.Conc)
 					case id.K == "mac" && v.MacLen == 8 && rng.Intn(2) == 0:
 						q.Alt, q.Conc = "mac8colon", c.mac(id.X).String()
+					case id.K == "ip" && id.X > 255:
+						q.Alt = "zonefall"
 					case id.K == "ip" && !c.v6() && rng.Intn(2) == 0:
 						q.Alt, q.Conc = "mapped", zzC04Mapped(c.addr(id.X)).String()
 					}
@@ -1825,6 +1856,9 @@ func zzC04OneTrace(tb testing.TB, w *zzWriter, tr, nOps int, seed int64, dir str
 					q.T, q.ID, q.Conc = "find", &id, c.idString(id)
 					if !c.v6() && rng.Intn(3) == 0 {
 						q.Alt, q.Conc = "mapped", zzC04Mapped(c.addr(a)).String()
+					}
+					if a > 255 {
+						q.Alt = "zonefall" // a zoned address: the zone-less identifier may decide
 					}
 					q.R, q.RIDs = absClient(rig.st.Find(q.Conc))
 				case k < 6 && rng.Intn(2) == 0:
@@ -1878,6 +1912,8 @@ func zzC04OneTrace(tb testing.TB, w *zzWriter, tr, nOps int, seed int64, dir str
 						q.Alt, cs = "cidcase", strings.ToUpper(cs)
 					case !c.v6() && rng.Intn(3) == 0:
 						q.Alt, reqAddr = "mapped", zzC04Mapped(reqAddr)
+					case a > 255:
+						q.Alt = "zonefall"
 					}
 					e := rig.effective(cs, reqAddr)
 					q.R, q.Vals, q.Svcs = e.Who, e.Vals, e.Svcs
